@@ -4,8 +4,10 @@ import Zstd.Proofs.FrameDecoderNoFault
 C01 at the block and frame level: `decompress_block`, the block loop and the frame decoder refine
 the Spec (`decodeCompressedBlock`, `decodeBlocks`, `decodeFrame`), given the entropy stand-ins.
 -/
+set_option linter.unusedSectionVars false
 namespace Zstd.Model
 open Zstd
+
 
 theorem parseLitHeader_bounds (raw : List Nat) (h : Spec.LitHeader) (hp : Spec.parseLitHeader raw = some h) :
     1 ≤ h.hdrLen ∧ h.hdrLen ≤ raw.length := by
@@ -213,8 +215,51 @@ theorem parseBlockHeader_refines (b0 b1 b2 : Nat) (h0 : b0 < 256) (h1 : b1 < 256
     simp [lookupNat, Gen.blockTypeMap, Gen.blockSizeTooLarge, Gen.maxBlockSize] at hok ⊢ <;>
     omega
 
+/-! ### the contract C01 needs of a block decoder -/
+
+/-- `Spec ok ⇒ the block decoder returns the same bytes`, with the entropy states related by `coupled`
+(equality for the stand-in; "same tables / offset history" for the faithful decoder) -/
+class RefinesSpec (σ : Type) [BlockDec σ] where
+  coupled : σ → Spec.Entropy → Prop
+  coupled_fresh : coupled (BlockDec.fresh : σ) {}
+  /-- a Compressed_Block body the Spec accepts is decoded `Ok` to the same output; the entropy states
+  stay coupled -/
+  refines : ∀ (bytes : List Nat) (s : σ) (e e' : Spec.Entropy) (b : DBuf) (out' : Array Nat),
+    Proofs.BitIO.Bytes bytes → coupled s e → b.totalOut ≤ b.content.size →
+    Spec.decodeCompressedBlock b.window b.dict bytes e b.content = some (out', e') →
+    ∃ b' s', BlockDec.run bytes s b = ((b', s'), .ok ()) ∧ RefinesOut b b' out' ∧ coupled s' e'
+  /-- once the output exceeds the window, the (ghost) offsets of a block the Spec accepts are within
+  the window -/
+  offsets_le : ∀ (window : Nat) (dict : Array Nat) (bytes : List Nat) (s : σ) (e e' : Spec.Entropy)
+    (out out' : Array Nat), Proofs.BitIO.Bytes bytes → coupled s e →
+    Spec.decodeCompressedBlock window dict bytes e out = some (out', e') → window < out.size →
+    ∀ o ∈ BlockDec.offsets bytes s, o ≤ window
+
+variable {σ : Type} [BlockDec σ] [BlockContract σ] [RefinesSpec σ]
+
+/-- the decoder's registered dictionaries are the Spec's: same ids and contents, coupled entropy -/
+inductive DictsCoupled : List (Dict σ) → List Spec.Dict → Prop
+  | nil : DictsCoupled [] []
+  | cons {d : Dict σ} {sd : Spec.Dict} {l1 : List (Dict σ)} {l2 : List Spec.Dict} :
+      sd.id = d.id → sd.content = d.content → RefinesSpec.coupled d.entropy sd.entropy →
+      DictsCoupled l1 l2 → DictsCoupled (d :: l1) (sd :: l2)
+
+theorem DictsCoupled.find {dicts : List (Dict σ)} {sdicts : List Spec.Dict} (h : DictsCoupled dicts sdicts) (id : Nat) :
+    (dicts.find? (fun x => x.id = id) = none ∧ sdicts.find? (fun x => x.id = id) = none) ∨
+    ∃ d sd, dicts.find? (fun x => x.id = id) = some d ∧ sdicts.find? (fun x => x.id = id) = some sd ∧
+      sd.content = d.content ∧ RefinesSpec.coupled d.entropy sd.entropy := by
+  induction h with
+  | nil => exact Or.inl ⟨rfl, rfl⟩
+  | @cons a b l1 l2 h1 h2 h3 _ ih =>
+    by_cases hid : a.id = id
+    · right
+      exact ⟨a, b, by simp [List.find?, hid], by simp [List.find?, h1, hid], h2, h3⟩
+    · have hid' : ¬ b.id = id := by rw [h1]; exact hid
+      simp only [List.find?, hid, hid', decide_false]
+      exact ih
+
 /-- what the loop of `decode_blocks` does after the last block -/
-def finishFrame (st1 : FState) (s1 : Src) : FState × Out Src :=
+def finishFrame (st1 : FState σ) (s1 : Src) : FState σ × Out Src :=
   if st1.header.checksumFlag then
     match readExact 4 s1 with
     | none => ({ st1 with finished := true }, .err .checksumRead)
@@ -223,7 +268,7 @@ def finishFrame (st1 : FState) (s1 : Src) : FState × Out Src :=
 
 
 
-theorem decodeBlocksLoop_last (strat : Strategy) (a c fuel : Nat) (st st1 : FState) (s s1 : Src) (bh : BHeader)
+theorem decodeBlocksLoop_last (strat : Strategy) (a c fuel : Nat) (st st1 : FState σ) (s s1 : Src) (bh : BHeader)
     (h : decodeOneBlock st s = (st1, .ok (bh, s1))) (hl : bh.last = true) :
     decodeBlocksLoop strat a c (fuel + 1) st s = finishFrame st1 s1 := by
   rw [decodeBlocksLoop_succ, h]
@@ -234,21 +279,21 @@ theorem decodeBlocksLoop_last (strat : Strategy) (a c fuel : Nat) (st st1 : FSta
     | some p => rfl
   · rfl
 
-theorem decodeBlocksLoop_all_next (a c fuel : Nat) (st st1 : FState) (s s1 : Src) (bh : BHeader)
+theorem decodeBlocksLoop_all_next (a c fuel : Nat) (st st1 : FState σ) (s s1 : Src) (bh : BHeader)
     (h : decodeOneBlock st s = (st1, .ok (bh, s1))) (hl : bh.last = false) :
     decodeBlocksLoop .all a c (fuel + 1) st s = decodeBlocksLoop .all a c fuel st1 s1 := by
   rw [decodeBlocksLoop_succ, h]
   simp [hl, stratStop]
 
 /-- the states the refinement relates: buffer = the Spec's output so far, entropy = the Spec's -/
-structure SpecState (st : FState) (e : Spec.Entropy) (out : Array Nat) : Prop where
+structure SpecState (st : FState σ) (e : Spec.Entropy) (out : Array Nat) : Prop where
   content : st.buf.content = out
-  entropy : st.entropy = e
+  entropy : RefinesSpec.coupled st.entropy e
   totalOut : st.buf.totalOut ≤ st.buf.content.size
 
 /-- one block: the model's `decodeOneBlock` follows the Spec's block step -/
 theorem decodeBlocksLoop_refines (fuelS : Nat) (a c fuel : Nat) (bytes : List Nat) (hb : ∀ x ∈ bytes, x < 256)
-    (e : Spec.Entropy) (st : FState) (out' : Array Nat) (consumed consumed' : Nat)
+    (e : Spec.Entropy) (st : FState σ) (out' : Array Nat) (consumed consumed' : Nat)
     (hf : bytes.length < fuel) (hst : SpecState st e st.buf.content)
     (hs : Spec.decodeBlocks st.buf.window st.buf.dict fuelS bytes e st.buf.content consumed = some (out', consumed')) :
     ∃ st' n, consumed' = consumed + n ∧ n ≤ bytes.length ∧
@@ -286,7 +331,7 @@ theorem decodeBlocksLoop_refines (fuelS : Nat) (a c fuel : Nat) (bytes : List Na
         intro hok
         rw [decodeOneBlock_eq, if_neg hlen3, hg0, hg1, hg2, parseBlockHeader_refines b0 b1 b2 h0 h1 h2 (by rw [hH]; exact hok), hH, hd3]
       -- common continuation: after a successful block step
-      have hcont : ∀ (st1 : FState) (bh : BHeader) (n1 : Nat) (e1 : Spec.Entropy) (out1 : Array Nat),
+      have hcont : ∀ (st1 : FState σ) (bh : BHeader) (n1 : Nat) (e1 : Spec.Entropy) (out1 : Array Nat),
           decodeOneBlock st (b0 :: b1 :: b2 :: body) = (st1, .ok (bh, (b0 :: b1 :: b2 :: body).drop n1)) →
           bh.last = H.last → 3 ≤ n1 → n1 ≤ (b0 :: b1 :: b2 :: body).length →
           SpecState st1 e1 out1 → st1.bytesRead = st.bytesRead + n1 → st1.header = st.header →
@@ -376,11 +421,12 @@ theorem decodeBlocksLoop_refines (fuelS : Nat) (a c fuel : Nat) (bytes : List Na
                 have hblk := hone ⟨ht3, hsz1⟩
                 simp only [ht1, if_false] at hblk
                 rw [if_neg (by simp only [List.length_cons]; omega)] at hblk
-                obtain ⟨b', hdb, hrb⟩ := decompressBlock_refines (body.take H.size) e e1 st.buf out1 hst.totalOut hcb
-                simp only [blockBody, ht0, ht1, if_false, hst.entropy, hdb, Out.mapOk] at hblk
+                obtain ⟨b', s', hdb, hrb, hcp⟩ := RefinesSpec.refines (body.take H.size) st.entropy e e1 st.buf out1
+                  (fun x hx => hbody x (List.mem_of_mem_take hx)) hst.entropy hst.totalOut hcb
+                simp only [blockBody, ht0, ht1, if_false, hdb, Out.mapOk] at hblk
                 refine hcont _ _ (3 + H.size) e1 out1 hblk rfl
                   (by omega) (by simp only [List.length_cons]; omega)
-                  ⟨hrb.content, rfl, hrb.totalOut⟩ (by simp; omega) rfl rfl rfl hrb.hashed hrb.window hrb.dict ?_
+                  ⟨hrb.content, hcp, hrb.totalOut⟩ (by simp; omega) rfl rfl rfl hrb.hashed hrb.window hrb.dict ?_
                 rw [hdrop, ← Nat.add_assoc]; exact hs
 
 
@@ -542,149 +588,16 @@ theorem readFrameHeader_refines (bytes : List Nat) (hb : ∀ x ∈ bytes, x < 25
           · rw [hs]; simp [FHeader.checksumFlag, Spec.parseFrameDesc]
 
 
-/-- the Spec's view of a registered dictionary -/
-def Dict.toSpec (d : Dict) : Spec.Dict := { id := d.id, entropy := d.entropy, content := d.content }
-
-/-- `decodeFrame_refines`: every frame the Spec accepts (with the registered dictionaries, window within
-the decoder's limit) is decoded by `reset` + `decode_blocks(All)` to the Spec's content, consuming
-exactly the Spec's byte count, finished, with the frame's stored checksum — C01 at the frame level,
-given the entropy stand-ins -/
-theorem decodeFrame_refines (d : Decoder) (f : List Nat) (hb : ∀ x ∈ f, x < 256) (r : Spec.FrameResult)
-    (hs : Spec.decodeFrame f (d.dicts.map Dict.toSpec) = some r) (hlim : r.header.window ≤ d.maxWindow) :
-    ∃ d0 d1 rest st1, d.reset f = (d0, .ok rest) ∧
-      d0.decodeBlocks rest .all = (d1, .ok (f.drop r.consumed, true)) ∧ d1.state = some st1 ∧
-      st1.buf.content.toList = r.content ∧ d1.isFinished = true ∧ st1.bytesRead = r.consumed ∧
-      st1.checksum = r.checksum ∧ st1.buf.hashed = #[] ∧ r.consumed ≤ f.length := by
-  simp only [Spec.decodeFrame] at hs
-  split at hs
-  · cases hs
-  · rename_i h hh
-    obtain ⟨fh, hrf, hws, hdid, hck, h5, hhl⟩ := readFrameHeader_refines f hb h hh
-    -- the dictionary choice, on both sides
-    have hfind : ∀ id, (d.dicts.map Dict.toSpec).find? (fun x => x.id = id) = (d.dicts.find? (fun x => x.id = id)).map Dict.toSpec := by
-      intro id
-      rw [List.find?_map]; rfl
-    split at hs
-    · cases hs
-    · rename_i dsel hsel
-      split at hs
-      · cases hs
-      · rename_i out consumed hblocks
-        -- what the Spec returns
-        have hr : r.header = h ∧ r.content = out.toList ∧
-            ((h.desc.checksum = true ∧ 4 ≤ (f.drop consumed).length ∧ r.consumed = consumed + 4 ∧
-                r.checksum = some (leNat ((f.drop consumed).take 4))) ∨
-             (h.desc.checksum = false ∧ r.consumed = consumed ∧ r.checksum = none)) := by
-          have hs' : (if h.desc.checksum = true then
-                if ((f.drop consumed).take 4).length < 4 then none
-                else if leNat ((f.drop consumed).take 4) ≠ Spec.Xxh64.checksum32 out.toList then none
-                else some (⟨out.toList, consumed + 4, h, some (leNat ((f.drop consumed).take 4))⟩ : Spec.FrameResult)
-              else some ⟨out.toList, consumed, h, none⟩) = some r := by
-            cases hcsz : h.contentSize with
-            | none => simpa [hcsz] using hs
-            | some n =>
-              simp only [hcsz] at hs
-              by_cases hn : n ≠ out.size
-              · simp [hn] at hs
-              · simpa [hn] using hs
-          clear hs
-          have hs := hs'
-          · by_cases hcks : h.desc.checksum = true
-            · rw [if_pos hcks] at hs
-              by_cases hl4 : ((f.drop consumed).take 4).length < 4
-              · rw [if_pos hl4] at hs; cases hs
-              · rw [if_neg hl4] at hs
-                by_cases hne : leNat ((f.drop consumed).take 4) ≠ Spec.Xxh64.checksum32 out.toList
-                · rw [if_pos hne] at hs; cases hs
-                · rw [if_neg hne] at hs
-                  simp only [Option.some.injEq] at hs
-                  rw [← hs]
-                  simp only [List.length_take] at hl4
-                  exact ⟨rfl, rfl, Or.inl ⟨hcks, by omega, rfl, rfl⟩⟩
-            · rw [if_neg hcks] at hs
-              simp only [Option.some.injEq] at hs
-              rw [← hs]
-              exact ⟨rfl, rfl, Or.inr ⟨by simpa using hcks, rfl, rfl⟩⟩
-        obtain ⟨hrh, hrc, hrk⟩ := hr
-        rw [hrh] at hlim
-        have hlim' : Gen.windowOverLimit h.window d.maxWindow = false := by
-          simp only [Gen.windowOverLimit, decide_eq_false_iff_not]; omega
-        -- the dictionary choice
-        have hdsel : (h.dictId = none ∧ dsel = none) ∨
-            (∃ id dict, h.dictId = some id ∧ d.dicts.find? (fun x => x.id = id) = some dict ∧ dsel = some dict.toSpec) := by
-          cases hdi : h.dictId with
-          | none =>
-            rw [hdi] at hsel
-            simp only [Option.some.injEq] at hsel
-            exact Or.inl ⟨rfl, hsel.symm⟩
-          | some id =>
-            rw [hdi] at hsel
-            simp only [hfind] at hsel
-            cases hfd : d.dicts.find? (fun x => x.id = id) with
-            | none => rw [hfd] at hsel; simp at hsel
-            | some dict =>
-              rw [hfd] at hsel
-              simp only [Option.map_some, Option.some.injEq] at hsel
-              exact Or.inr ⟨id, dict, rfl, hfd, hsel.symm⟩
-        -- the model's `reset`: the state and the Spec's (entropy, dictionary content)
-        obtain ⟨st0, e0, hreset, hst0, hent, hblocks'⟩ : ∃ (st0 : FState) (e0 : Spec.Entropy),
-            resetCore d.dicts d.maxWindow f = .replace st0 (.ok (f.drop h.hdrLen)) ∧
-            (st0.header = fh ∧ st0.finished = false ∧ st0.checksum = none ∧ st0.bytesRead = h.hdrLen ∧
-             st0.blockCounter = 0 ∧ st0.buf.content = #[] ∧ st0.buf.window = h.window ∧ st0.buf.totalOut = 0 ∧
-             st0.buf.hashed = #[]) ∧ st0.entropy = e0 ∧
-            Spec.decodeBlocks st0.buf.window st0.buf.dict (f.length + 1) (f.drop h.hdrLen) e0 st0.buf.content h.hdrLen
-              = some (out, consumed) := by
-          rcases hdsel with ⟨hdi, rfl⟩ | ⟨id, dict, hdi, hfd, rfl⟩
-          · refine ⟨freshState fh h.hdrLen h.window, {}, ?_, ⟨rfl, rfl, rfl, rfl, rfl, rfl, rfl, rfl, rfl⟩, rfl, hblocks⟩
-            simp only [resetCore, hrf, hws, hlim', Bool.false_eq_true, if_false, applyDictChoice, freshState, hdid, hdi]
-          · refine ⟨(freshState fh h.hdrLen h.window).withDict dict, dict.entropy, ?_,
-              ⟨rfl, rfl, rfl, rfl, rfl, rfl, rfl, rfl, rfl⟩, rfl, hblocks⟩
-            simp only [resetCore, hrf, hws, hlim', Bool.false_eq_true, if_false, applyDictChoice, freshState, hdid, hdi, hfd]
-        have hbrest : ∀ x ∈ f.drop h.hdrLen, x < 256 := fun x hx => hb x (List.mem_of_mem_drop hx)
-        obtain ⟨hh0, hf0, hc0, hbr0, hbc0, hco0, hw0, hto0, hha0⟩ := hst0
-        have hss : SpecState st0 e0 st0.buf.content := ⟨rfl, hent, by rw [hto0]; omega⟩
-        obtain ⟨st', n, hcn, hnl, hloop, hcont, hbr', hhd', hfi', hck', hhs', hw', hdi'⟩ :=
-          decodeBlocksLoop_refines (f.length + 1) st0.buf.content.size st0.blockCounter ((f.drop h.hdrLen).length + 1)
-            (f.drop h.hdrLen) hbrest e0 st0 out h.hdrLen consumed (by omega) hss hblocks'
-        have hres : d.reset f = ({ d with state := some st0 }, .ok (f.drop h.hdrLen)) := by
-          simp only [Decoder.reset, hreset]
-        have hdb := Decoder.decodeBlocks_some { d with state := some st0 } st0 (f.drop h.hdrLen) .all rfl
-        rw [hloop] at hdb
-        have hdrop : (f.drop h.hdrLen).drop n = f.drop consumed := by rw [List.drop_drop, hcn]
-        rw [List.length_drop] at hnl
-        have hflag : st'.header.checksumFlag = h.desc.checksum := by rw [hhd', hh0, hck]
-        rcases hrk with ⟨hcks, hl4, hrcons, hrck⟩ | ⟨hcks, hrcons, hrck⟩
-        · have hre : readExact 4 (f.drop consumed) = some ((f.drop consumed).take 4, (f.drop consumed).drop 4) := by
-            rw [readExact_eq_some]; exact ⟨hl4, rfl, rfl⟩
-          simp only [finishFrame, hflag, hcks, if_true, hdrop, hre] at hdb
-          refine ⟨_, ({ state := some ({ st' with finished := true, bytesRead := st'.bytesRead + 4, checksum := some (leNat ((f.drop consumed).take 4)) } : FState), dicts := d.dicts, maxWindow := d.maxWindow } : Decoder), _, _, hres, ?_, rfl, ?_, ?_, ?_, ?_, ?_, ?_⟩
-          · rw [hdb, hrcons, List.drop_drop]
-          · simp only; rw [hcont, hrc]
-          · simp [Decoder.isFinished, hflag, hcks]
-          · simp only; rw [hbr', hbr0, hrcons]; omega
-          · simp only; rw [hrck]
-          · simp only; rw [hhs', hha0]
-          · rw [hrcons]; rw [List.length_drop] at hl4; omega
-        · simp only [finishFrame, hflag, hcks, Bool.false_eq_true, if_false, hdrop] at hdb
-          refine ⟨_, ({ state := some ({ st' with finished := true } : FState), dicts := d.dicts, maxWindow := d.maxWindow } : Decoder), _, _, hres, ?_, rfl, ?_, ?_, ?_, ?_, ?_, ?_⟩
-          · rw [hdb, hrcons]
-          · simp only; rw [hcont, hrc]
-          · simp [Decoder.isFinished, hflag, hcks]
-          · simp only; rw [hbr', hbr0, hrcons]; omega
-          · simp only; rw [hck', hc0, hrck]
-          · simp only; rw [hhs', hha0]
-          · rw [hrcons]; omega
-
-
 /-- what `Spec.decodeFrame f = some r` says, in the model's terms: `reset` succeeds with a fresh state
 `st0` whose window / dictionary / entropy are the Spec's, and the Spec's block run from there yields the
 content; plus where the frame ends and its checksum -/
-theorem decodeFrame_setup (d : Decoder) (f : List Nat) (hb : ∀ x ∈ f, x < 256) (r : Spec.FrameResult)
-    (hs : Spec.decodeFrame f (d.dicts.map Dict.toSpec) = some r) (hlim : r.header.window ≤ d.maxWindow) :
-    ∃ (st0 : FState) (e0 : Spec.Entropy) (hdrLen consumed : Nat) (out : Array Nat),
+theorem decodeFrame_setup (d : Decoder σ) (sdicts : List Spec.Dict) (hdc : DictsCoupled d.dicts sdicts)
+    (f : List Nat) (hb : ∀ x ∈ f, x < 256) (r : Spec.FrameResult)
+    (hs : Spec.decodeFrame f sdicts = some r) (hlim : r.header.window ≤ d.maxWindow) :
+    ∃ (st0 : FState σ) (e0 : Spec.Entropy) (hdrLen consumed : Nat) (out : Array Nat),
       d.reset f = ({ d with state := some st0 }, .ok (f.drop hdrLen)) ∧ 5 ≤ hdrLen ∧ hdrLen ≤ f.length ∧
       st0.finished = false ∧ st0.checksum = none ∧ st0.bytesRead = hdrLen ∧ st0.buf.content = #[] ∧
-      st0.buf.totalOut = 0 ∧ st0.buf.hashed = #[] ∧ st0.entropy = e0 ∧
+      st0.buf.totalOut = 0 ∧ st0.buf.hashed = #[] ∧ RefinesSpec.coupled st0.entropy e0 ∧
       Spec.decodeBlocks st0.buf.window st0.buf.dict (f.length + 1) (f.drop hdrLen) e0 st0.buf.content hdrLen = some (out, consumed) ∧
       r.content = out.toList ∧
       ((st0.header.checksumFlag = true ∧ 4 ≤ (f.drop consumed).length ∧ r.consumed = consumed + 4 ∧
@@ -695,10 +608,6 @@ theorem decodeFrame_setup (d : Decoder) (f : List Nat) (hb : ∀ x ∈ f, x < 25
   · cases hs
   · rename_i h hh
     obtain ⟨fh, hrf, hws, hdid, hck, h5, hhl⟩ := readFrameHeader_refines f hb h hh
-    -- the dictionary choice, on both sides
-    have hfind : ∀ id, (d.dicts.map Dict.toSpec).find? (fun x => x.id = id) = (d.dicts.find? (fun x => x.id = id)).map Dict.toSpec := by
-      intro id
-      rw [List.find?_map]; rfl
     split at hs
     · cases hs
     · rename_i dsel hsel
@@ -746,7 +655,8 @@ theorem decodeFrame_setup (d : Decoder) (f : List Nat) (hb : ∀ x ∈ f, x < 25
           simp only [Gen.windowOverLimit, decide_eq_false_iff_not]; omega
         -- the dictionary choice
         have hdsel : (h.dictId = none ∧ dsel = none) ∨
-            (∃ id dict, h.dictId = some id ∧ d.dicts.find? (fun x => x.id = id) = some dict ∧ dsel = some dict.toSpec) := by
+            (∃ id dict sd, h.dictId = some id ∧ d.dicts.find? (fun x => x.id = id) = some dict ∧ dsel = some sd ∧
+              sd.content = dict.content ∧ RefinesSpec.coupled dict.entropy sd.entropy) := by
           cases hdi : h.dictId with
           | none =>
             rw [hdi] at hsel
@@ -754,27 +664,28 @@ theorem decodeFrame_setup (d : Decoder) (f : List Nat) (hb : ∀ x ∈ f, x < 25
             exact Or.inl ⟨rfl, hsel.symm⟩
           | some id =>
             rw [hdi] at hsel
-            simp only [hfind] at hsel
-            cases hfd : d.dicts.find? (fun x => x.id = id) with
-            | none => rw [hfd] at hsel; simp at hsel
-            | some dict =>
-              rw [hfd] at hsel
-              simp only [Option.map_some, Option.some.injEq] at hsel
-              exact Or.inr ⟨id, dict, rfl, hfd, hsel.symm⟩
+            rcases hdc.find id with ⟨-, hn⟩ | ⟨dict, sd, hfd, hfs, hc1, hc2⟩
+            · simp [hn] at hsel
+            · simp only [hfs, Option.map_some, Option.some.injEq] at hsel
+              exact Or.inr ⟨id, dict, sd, rfl, hfd, hsel.symm, hc1, hc2⟩
         -- the model's `reset`: the state and the Spec's (entropy, dictionary content)
-        obtain ⟨st0, e0, hreset, hst0, hent, hblocks'⟩ : ∃ (st0 : FState) (e0 : Spec.Entropy),
+        obtain ⟨st0, e0, hreset, hst0, hent, hblocks'⟩ : ∃ (st0 : FState σ) (e0 : Spec.Entropy),
             resetCore d.dicts d.maxWindow f = .replace st0 (.ok (f.drop h.hdrLen)) ∧
             (st0.header = fh ∧ st0.finished = false ∧ st0.checksum = none ∧ st0.bytesRead = h.hdrLen ∧
              st0.blockCounter = 0 ∧ st0.buf.content = #[] ∧ st0.buf.window = h.window ∧ st0.buf.totalOut = 0 ∧
-             st0.buf.hashed = #[]) ∧ st0.entropy = e0 ∧
+             st0.buf.hashed = #[]) ∧ RefinesSpec.coupled st0.entropy e0 ∧
             Spec.decodeBlocks st0.buf.window st0.buf.dict (f.length + 1) (f.drop h.hdrLen) e0 st0.buf.content h.hdrLen
               = some (out, consumed) := by
-          rcases hdsel with ⟨hdi, rfl⟩ | ⟨id, dict, hdi, hfd, rfl⟩
-          · refine ⟨freshState fh h.hdrLen h.window, {}, ?_, ⟨rfl, rfl, rfl, rfl, rfl, rfl, rfl, rfl, rfl⟩, rfl, hblocks⟩
+          rcases hdsel with ⟨hdi, rfl⟩ | ⟨id, dict, sd, hdi, hfd, rfl, hc1, hc2⟩
+          · refine ⟨freshState fh h.hdrLen h.window, {}, ?_, ⟨rfl, rfl, rfl, rfl, rfl, rfl, rfl, rfl, rfl⟩,
+              RefinesSpec.coupled_fresh, hblocks⟩
             simp only [resetCore, hrf, hws, hlim', Bool.false_eq_true, if_false, applyDictChoice, freshState, hdid, hdi]
-          · refine ⟨(freshState fh h.hdrLen h.window).withDict dict, dict.entropy, ?_,
-              ⟨rfl, rfl, rfl, rfl, rfl, rfl, rfl, rfl, rfl⟩, rfl, hblocks⟩
-            simp only [resetCore, hrf, hws, hlim', Bool.false_eq_true, if_false, applyDictChoice, freshState, hdid, hdi, hfd]
+          · refine ⟨(freshState fh h.hdrLen h.window).withDict dict, sd.entropy, ?_,
+              ⟨rfl, rfl, rfl, rfl, rfl, rfl, rfl, rfl, rfl⟩, hc2, ?_⟩
+            · simp only [resetCore, hrf, hws, hlim', Bool.false_eq_true, if_false, applyDictChoice, freshState, hdid, hdi, hfd]
+            · simp only at hblocks
+              rw [hc1] at hblocks
+              exact hblocks
         obtain ⟨hh0, hf0, hc0, hbr0, hbc0, hco0, hw0, hto0, hha0⟩ := hst0
         have hres : d.reset f = ({ d with state := some st0 }, .ok (f.drop h.hdrLen)) := by
           simp only [Decoder.reset, hreset]
@@ -783,6 +694,54 @@ theorem decodeFrame_setup (d : Decoder) (f : List Nat) (hb : ∀ x ∈ f, x < 25
         · exact Or.inl ⟨by rw [hh0, hck, hcks], hl4, hrcons, hrck⟩
         · exact Or.inr ⟨by rw [hh0, hck, hcks], hrcons, hrck⟩
 
+
+
+
+/-- `decodeFrame_refines`: every frame the Spec accepts (with dictionaries coupled to the decoder's,
+window within the decoder's limit) is decoded by `reset` + `decode_blocks(All)` to the Spec's content,
+consuming exactly the Spec's byte count, finished, with the frame's stored checksum — C01 at the frame
+level, for every block decoder that refines the Spec -/
+theorem decodeFrame_refines (d : Decoder σ) (sdicts : List Spec.Dict) (hdc : DictsCoupled d.dicts sdicts)
+    (f : List Nat) (hb : ∀ x ∈ f, x < 256) (r : Spec.FrameResult)
+    (hs : Spec.decodeFrame f sdicts = some r) (hlim : r.header.window ≤ d.maxWindow) :
+    ∃ d0 d1 rest st1, d.reset f = (d0, .ok rest) ∧
+      d0.decodeBlocks rest .all = (d1, .ok (f.drop r.consumed, true)) ∧ d1.state = some st1 ∧
+      st1.buf.content.toList = r.content ∧ d1.isFinished = true ∧ st1.bytesRead = r.consumed ∧
+      st1.checksum = r.checksum ∧ st1.buf.hashed = #[] ∧ r.consumed ≤ f.length := by
+  obtain ⟨st0, e0, hdrLen, consumed, out, hres, h5, hhl, hf0, hc0, hbr0, hco0, hto0, hha0, hent, hblocks', hrc, hrk⟩ :=
+    decodeFrame_setup d sdicts hdc f hb r hs hlim
+  have hbrest : ∀ x ∈ f.drop hdrLen, x < 256 := fun x hx => hb x (List.mem_of_mem_drop hx)
+  have hss : SpecState st0 e0 st0.buf.content := ⟨rfl, hent, by rw [hto0]; omega⟩
+  obtain ⟨st', n, hcn, hnl, hloop, hcont, hbr', hhd', hfi', hck', hhs', hw', hdi'⟩ :=
+    decodeBlocksLoop_refines (f.length + 1) st0.buf.content.size st0.blockCounter ((f.drop hdrLen).length + 1)
+      (f.drop hdrLen) hbrest e0 st0 out hdrLen consumed (by omega) hss hblocks'
+  have hdb := Decoder.decodeBlocks_some ({ d with state := some st0 } : Decoder σ) st0 (f.drop hdrLen) .all rfl
+  rw [hloop] at hdb
+  have hdrop : (f.drop hdrLen).drop n = f.drop consumed := by rw [List.drop_drop, hcn]
+  rw [List.length_drop] at hnl
+  rcases hrk with ⟨hcks, hl4, hrcons, hrck⟩ | ⟨hcks, hrcons, hrck⟩
+  · have hflag : st'.header.checksumFlag = true := by rw [hhd', hcks]
+    have hre : readExact 4 (f.drop consumed) = some ((f.drop consumed).take 4, (f.drop consumed).drop 4) := by
+      rw [readExact_eq_some]; exact ⟨hl4, rfl, rfl⟩
+    simp only [finishFrame, hflag, if_true, hdrop, hre] at hdb
+    refine ⟨_, ({ state := some ({ st' with finished := true, bytesRead := st'.bytesRead + 4, checksum := some (leNat ((f.drop consumed).take 4)) } : FState σ), dicts := d.dicts, maxWindow := d.maxWindow } : Decoder σ), _, _, hres, ?_, rfl, ?_, ?_, ?_, ?_, ?_, ?_⟩
+    · rw [hdb, hrcons, List.drop_drop]
+    · simp only; rw [hcont, hrc]
+    · simp [Decoder.isFinished, hflag]
+    · simp only; rw [hbr', hbr0, hrcons]; omega
+    · simp only; rw [hrck]
+    · simp only; rw [hhs', hha0]
+    · rw [hrcons]; rw [List.length_drop] at hl4; omega
+  · have hflag : st'.header.checksumFlag = false := by rw [hhd', hcks]
+    simp only [finishFrame, hflag, Bool.false_eq_true, if_false, hdrop] at hdb
+    refine ⟨_, ({ state := some ({ st' with finished := true } : FState σ), dicts := d.dicts, maxWindow := d.maxWindow } : Decoder σ), _, _, hres, ?_, rfl, ?_, ?_, ?_, ?_, ?_, ?_⟩
+    · rw [hdb, hrcons]
+    · simp only; rw [hcont, hrc]
+    · simp [Decoder.isFinished, hflag]
+    · simp only; rw [hbr', hbr0, hrcons]; omega
+    · simp only; rw [hck', hc0, hrck]
+    · simp only; rw [hhs', hha0]
+    · rw [hrcons]; omega
 
 
 end Zstd.Model
